@@ -76,8 +76,9 @@ class ActTr(pyexpr.Tr):
         if (isinstance(e, ast.Compare) and len(e.ops) == 1 and isinstance(e.ops[0], (ast.Is, ast.IsNot))
                 and isinstance(e.comparators[0], ast.Constant) and e.comparators[0].value is None and self._deref(e.left)):
             return ("live" if isinstance(e.ops[0], ast.IsNot) else "(negb live)"), "bool"
-        if isinstance(e, ast.Name) and e.id in self.agent_vars:
-            return "live", "bool"            # truth value of the referent: an Agent is truthy, None is not
+        if (isinstance(e, ast.Name) and e.id in self.agent_vars) or isinstance(e, ast.NamedExpr):
+            # the truth value of the referent is NOT liveness: an agent class may define __bool__ / __len__
+            raise pyexpr.Unsupported("truth value of an agent used as a liveness test (use `is not None`)")
         return super().expr(e)
 
 
